@@ -66,9 +66,13 @@ def _oracle(args):
         is_root = getattr(tree, 'is_root', False)
         a = impl.canon_xml(p.generator.to_xml(tree))
         b = impl.canon_xml(impl.parser().generator.xml_from_dict(back, is_root))
+        # the same on the generator that has just converted the tree, and once more: building from a dict is repeatable
+        c = impl.canon_xml(p.generator.xml_from_dict(json.loads(s), is_root))
+        d = impl.canon_xml(p.generator.xml_from_dict(json.loads(s), is_root))
     except Exception as e:
         return ('raised', impl.exc_kind(e), n)
     if a != b: return ('bad', 'XML from the reloaded dict differs from XML from the parse tree', n)
+    if a != c or a != d: return ('bad', 'XML from the reloaded dict, built on the generator that converted the tree, differs from XML from the parse tree', n)
     return ('ok', None, n)
 
 def cases(ctx, n):
